@@ -115,3 +115,38 @@ package internal
 //@   ensures [one-watch-on-the-prefix] calls(cli.Watch) == 1 && arg(cli.Watch, 1) == ret(makeKeyPrefix) && calls(makeKeyPrefix, key) == 1
 //@   loop 1 iteration-ensures [healthy-response-handled] calls(c.handleWatchEvents) == 1 && arg(c.handleWatchEvents, 1) == key && arg(c.handleWatchEvents, 2) == ret(on("recv", local(watchCh)), 0).Events && ret(on("recv", local(watchCh)), 1) && !ret(on("recv", local(watchCh)), 0).Canceled
 //@   ensures [shutdown-true-else-false] result == (calls(on("recv", c.done)) == 1)
+
+// Connection state watcher: a loss (TransientFailure or Shutdown) is REMEMBERED until the connection is Ready
+// again - whatever states are passed through in between (Connecting, Idle) - and the first Ready after a loss
+// notifies the listeners (the reload) exactly once; a Ready without a remembered loss notifies nobody.
+//@ func (*stateWatcher).updateState
+//@   prop C15
+//@   opaque notifyListeners
+//@   requires w != nil
+//@   let st = ret(conn.GetState)
+//@   ensures [state-recorded] calls(conn.GetState) == 1 && w.currentState == st
+//@   ensures [loss-remembered] st == 3 || st == 4 ==> w.disconnected && calls(notifyListeners) == 0
+//@   ensures [ready-after-loss-reloads-once] st == 2 && old(w.disconnected) ==> calls(w.notifyListeners) == 1 && !w.disconnected
+//@   ensures [ready-without-loss-silent] st == 2 && !old(w.disconnected) ==> calls(notifyListeners) == 0 && !w.disconnected
+//@   ensures [intermediate-states-keep-the-memory] st != 2 && st != 3 && st != 4 ==> w.disconnected == old(w.disconnected) && calls(notifyListeners) == 0
+//@ func (*stateWatcher).notifyListeners
+//@   prop C15
+//@   requires w != nil
+//@   loop 1 invariant -1 <= rangeindex && rangeindex <= len(w.listeners)
+//@   loop 1 iteration-ensures [each-listener-once] calls(l) == 1 && l == at_head(w.listeners[rangeindex + 1])
+//@ func (*stateWatcher).watch
+//@   prop C15
+//@   opaque updateState
+//@   requires w != nil
+//@   loop 1 iteration-ensures [every-change-processed] calls(conn.WaitForStateChange) == 1 && (calls(w.updateState, conn) == 1) == ret(WaitForStateChange) && arg(WaitForStateChange, 1) == at_head(w.currentState)
+//@ func (*stateWatcher).addListener
+//@   prop C15
+//@   requires w != nil
+//@   ensures [appended] len(w.listeners) == old(len(w.listeners)) + 1 && w.listeners[len(w.listeners) - 1] == l
+//@ func (*cluster).watchConnState
+//@   prop C15
+//@   opaque newStateWatcher, addListener, watch, ActiveConnection
+//@   ensures [reload-registered-before-watching] calls(addListener) == 1 && calls(watch) == 1 && before(addListener, watch) && arg(watch, 1) == ret(cli.ActiveConnection)
+//@ func (*cluster).watchConnState$1
+//@   prop C15
+//@   ensures [reload-in-background] calls("go (*cluster).reload") == 1
